@@ -776,3 +776,42 @@ def W1_W2_builders(rep, flow: Flow, want=("W1", "W2")):
                         rep.finding("W1", f"{fq}:width", f"{f.module.rel} {f.qualname} return path #{pi}: the readout record does not carry the full register width preparation_circuit.num_qubits")
                     else:
                         rep.ok("W1", 1, nontrivial=(fq, pi), sample=f"{f.qualname} path #{pi}: .{qfield[2]} = {'None' if given else lp}, .{widths[0]} = preparation_circuit.num_qubits")
+
+
+def W11_fitter_uses_list(rep, flow: Flow):
+    rep.rule("W11", "the fitter marginalises the counts onto the qubit list stored by the builder: the counts parser is constructed with the record's qubit field (not None, not another list)", floor=1)
+    f = flow.prog.func(A_FITTER)
+    parser_cls = A_COUNTS_PARSER.split(".")[1]
+    init = flow.prog.func(A_COUNTS_PARSER)
+    lists = [a.arg for a in init.node.args.args if (a.annotation is not None and "Sequence" in ast.unparse(a.annotation)) or a.arg == "qubits"]
+    lp = lists[0] if lists else None
+    calls = [c for c in ast.walk(f.node) if isinstance(c, ast.Call) and isinstance(c.func, ast.Name) and c.func.id == parser_cls]
+    if not calls or lp is None:
+        raise AnalysisError(f"{A_FITTER}: the counts parser {parser_cls} is not constructed here (anchor vanished)")
+    rec_fields = set()
+    for fq in BUILDERS:
+        for r in flow.paths(fq):
+            for o in r.heap.values():
+                if o.kind == "record" and o.cls is not None and o.cls.name == "ReadoutInfo":
+                    for k, v in o.fields.items():
+                        ho = r.heap.get(v.oid) if isinstance(v, Ref) else None
+                        if (ho is not None and ho.kind in ("tuple", "list")) or (isinstance(v, Const) and v.v is None):
+                            rec_fields.add(k)
+    for c in calls:
+        ps = init.params[1:]
+        b = {}
+        for i, a in enumerate(c.args):
+            if i < len(ps):
+                b[ps[i]] = a
+        for k in c.keywords:
+            b[k.arg] = k.value
+        arg = b.get(lp)
+        src = arg
+        if isinstance(arg, ast.Name):
+            asg = _assigned(f.node, arg.id)
+            src = asg[-1].value if len(asg) == 1 else None
+        okk = isinstance(src, ast.Attribute) and src.attr in rec_fields and "readout_info" in ast.unparse(src)
+        if okk:
+            rep.ok("W11", 1, nontrivial=pyfacts.norm_stmt(c), sample=f"{pyfacts.norm_stmt(c)} with {ast.unparse(arg)} = {ast.unparse(src)}")
+        else:
+            rep.finding("W11", f"{A_FITTER}:parser-list", f"{pyfacts.where(f, c)}: the counts are parsed with qubit list `{ast.unparse(arg) if arg is not None else 'absent (None)'}`{'' if src is None or src is arg else ' = ' + ast.unparse(src)}; it must be the list the builder stored in the readout record (fields {sorted(rec_fields)}): otherwise the full-register outcomes are read as if they were the subset's [{pyfacts.norm_stmt(c)}]")
